@@ -575,8 +575,13 @@ def revsuffix_jobs(tier):
     it is claimed exact (RSW) and on the wider family meta.isSafeForReverseSuffix admits (RSG); `revsuffix` compares the engine
     with the reference (verdict) and the real searcher with the model (conformance, counted)."""
     base = {"Shard": 0, "NShards": 1, "Claim": False, "Variant": "code"}
+    ri = {"Shard": 0, "NShards": 1, "Claim": False, "Variant": "code"}
     return [("RSW", dict(base, Family="RSW", Budget=400, LCap=5), "MC_ReverseSuffix", "revsuffix"),
-            ("RSG", dict(base, Family="RSG", Budget=1400, LCap=5), "MC_ReverseSuffix", "revsuffix")]
+            ("RSG", dict(base, Family="RSG", Budget=1400, LCap=5), "MC_ReverseSuffix", "revsuffix"),
+            ("RSR", dict(base, Family="RSR", Budget=1400, LCap=6), "MC_ReverseSuffix", "revsuffix"),
+            # the reverse-inner driver (spec/ReverseInner.tla): P.I.Q with wildcard / class / alternation prefixes, self-overlapping
+            # inner literals, universal and non-universal suffixes
+            ("RIG", dict(ri, Family="RIG", Budget=1400, LCap=5), "MC_ReverseInner", "revsuffix")]
 
 
 def revsuffix_stages(tier):
@@ -585,7 +590,13 @@ def revsuffix_stages(tier):
     # theorem: wildcard + literal, nothing else - the driver is exact.  Negative controls: two repaired defects of the driver.
     return [tlc_model_stage("ReverseSuffix_exact_on_RSW", "MC_ReverseSuffix", dict(base, Variant="code"), cfg, workers=4),
             tlc_model_stage("ReverseSuffix_norescan_control", "MC_ReverseSuffix", dict(base, Variant="norescan"), cfg, workers=2, expect_violation=True),
-            tlc_model_stage("ReverseSuffix_lastcand_control", "MC_ReverseSuffix", dict(base, Variant="lastcand"), cfg, workers=2, expect_violation=True)]
+            tlc_model_stage("ReverseSuffix_lastcand_control", "MC_ReverseSuffix", dict(base, Variant="lastcand"), cfg, workers=2, expect_violation=True),
+            # repeated group before the suffix (non-contiguous starts): exact as it is; rescanning only when the guarded hit lies on the guard is not
+            tlc_model_stage("ReverseSuffix_exact_on_RSR", "MC_ReverseSuffix", dict(base, Family="RSR", Budget=1400, LCap=6, Variant="code"), cfg, workers=4),
+            tlc_model_stage("ReverseSuffix_rescaneq_control", "MC_ReverseSuffix", dict(base, Family="RSR", Budget=1400, LCap=6, Variant="rescaneq"), cfg,
+                            workers=4, expect_violation=True),
+            # `.*I.*`: the universal shortcut of the reverse-inner driver is exact
+            tlc_model_stage("ReverseInner_exact_on_RIU", "MC_ReverseInner", dict(base, Family="RIU", Budget=400, Variant="code"), cfg, workers=2)]
 
 
 def c19(prop, tier):
@@ -1118,7 +1129,7 @@ def c17(prop, tier):
     work = tempfile.mkdtemp(prefix="vC17_")
     try:
         machinery = []
-        jobs = [(fam, dict(c, Budget=8, LCap=1)) for fam, c in search_jobs(tier)]
+        jobs = [(fam, dict(c, Budget=8, LCap=1)) for fam, c in search_jobs(tier) if fam not in FAMILY_MODULE]
         states = trans = 0
 
         def mk(fam, consts, i):
